@@ -2,10 +2,14 @@
 constructor calls -> constructed values (kind 2) -> writer history (kind 4)
 -> reader histories on the produced bytes (kind 5).  Every stage goes through
 the correspondence check (model vs implementation)."""
+import os
+import shutil
+import subprocess
 from fractions import Fraction
 
 import cases as C
 import refesri
+import sfv
 import shapes
 import stages
 
@@ -244,3 +248,88 @@ def value_to_rec(value):
         if code == 31:
             rec["kinds"] = list(s["tags"])
     return rec
+
+
+# ---------------------------------------------------------------- files on disk, opened by path
+def path_expected(f):
+    """Items a path-based read of the file's shapes must return: the in-memory
+    generic sequential read with index when the caller ran the read stage, else
+    a fresh in-memory read of the same plain history."""
+    rd = f.get("reads", {}).get(("generic", "seq", True))
+    if rd is not None:
+        return rd["ops"][0]["items"]
+    rel = os.path.join(sfv.TARGET, "debug", "runner")
+    w = C.parse_whist(sfv.run_impl(rel, [C.whist_case(True, 0, [("w", s) for s in f["specs"]])])[0])
+    r = sfv.run_impl(rel, [C.read_case(-1, w["shp"]["buf"], w["shx"]["buf"], [("it", -1)])])[0]
+    return C.parse_read(r, [("it", -1)])["ops"][0]["items"]
+
+
+def path_situations(rep, files, tag, with_reads=True):
+    """Files on disk opened by path: ShapeWriter::from_path / read_shapes /
+    ShapeReader::from_path, through the harness's `path` mode; compared with
+    the in-memory results of the same file.  Four situations in turn: a fresh
+    path; a name with a second dot next to a sibling shapefile sharing the
+    first part of the name (`f3.v2.shp` next to `f3.shp`/`f3.shx`); a path at
+    which longer stale files already exist; an upper-case extension."""
+    rel = os.path.join(sfv.TARGET, "debug", "runner")
+    tmp = os.path.join(sfv.CACHE, "tmp", tag)
+    shutil.rmtree(tmp, ignore_errors=True)
+    os.makedirs(tmp, exist_ok=True)
+    n = 0
+    usable = [f for f in files if "special" not in f["written"] and f["specs"]]
+    for k, f in enumerate(usable):
+        calls = [("w", s) for s in f["specs"]]
+        line = " ".join(str(x) for x in C.whist_case(True, 0, calls)[1:])
+        # the bytes an in-memory writer produces for the same plain sequence of writes
+        mem_plain = C.parse_whist(sfv.run_impl(rel, [C.whist_case(True, 0, calls)])[0])
+        situation = k % 4
+        d = os.path.join(tmp, "d%d" % k)
+        os.makedirs(d, exist_ok=True)
+        if situation == 0:
+            shp = os.path.join(d, "f%d.shp" % k)
+        elif situation == 1:
+            shp = os.path.join(d, "f%d.v2.shp" % k)
+            other = usable[(k + 1) % len(usable)]["written"]
+            open(os.path.join(d, "f%d.shp" % k), "wb").write(other["shp"]["buf"])
+            open(os.path.join(d, "f%d.shx" % k), "wb").write(other["shx"]["buf"])
+        elif situation == 2:
+            shp = os.path.join(d, "f%d.shp" % k)
+            stale = bytes((i * 7 + 3) % 256 for i in range(len(mem_plain["shp"]["buf"]) + 4000))
+            open(shp, "wb").write(stale)
+            open(shp[:-4] + ".shx", "wb").write(stale[:len(mem_plain["shx"]["buf"]) + 400])
+        else:
+            shp = os.path.join(d, "F%d.SHP" % k)
+        label = ["fresh path", "dotted name next to a sibling shapefile", "path holding longer stale files", "upper-case extension"][situation]
+        # 1. what is on disk after the writer is dropped
+        p = subprocess.run([rel, "path", shp, "keep"], input=line + "\n", stdout=subprocess.PIPE, text=True, timeout=120)
+        shx = os.path.splitext(shp)[0] + ".shx"
+        if not os.path.exists(shp) or not os.path.exists(shx):
+            rep.violation({"kind": "oracle", "what": "path route (%s): the writer did not leave %s and %s" % (label, os.path.basename(shp), os.path.basename(shx)),
+                           "file": f["specs"], "code": f["code"]})
+            return
+        if open(shp, "rb").read() != mem_plain["shp"]["buf"] or open(shx, "rb").read() != mem_plain["shx"]["buf"]:
+            rep.violation({"kind": "oracle", "what": "path route (%s): the files on disk differ from what the in-memory writer produces" % label,
+                           "file": f["specs"], "code": f["code"]})
+            return
+        if not with_reads:
+            n += 1
+            continue
+        # 2. the path-based readers (the harness writes the files again, then reads them)
+        p = subprocess.run([rel, "path", shp], input=line + "\n", stdout=subprocess.PIPE, text=True, timeout=120)
+        out = [l for l in p.stdout.splitlines() if not l.startswith("WARNING")]
+        if len(out) != 3:
+            rep.violation({"kind": "oracle", "what": "path route (%s) failed: %r" % (label, p.stdout[-500:],), "file": f["specs"]})
+            return
+        got = [[int(t) for t in l.split()] for l in out]
+        mem = path_expected(f)
+        want = []
+        for it in mem:
+            want += [0] + list(it[1])
+        for name, g in zip(("read_shapes (with .shx)", "read_shapes_as::<T>", "ShapeReader::from_path without .shx"), got):
+            if g != [len(mem)] + want:
+                rep.violation({"kind": "oracle", "what": "path route (%s): %s differs from the in-memory route" % (label, name),
+                               "file": f["specs"], "code": f["code"]})
+                return
+        n += 1
+    shutil.rmtree(tmp, ignore_errors=True)
+    rep.cov["path_route_files"] = n
